@@ -9,6 +9,12 @@ use serde_json::{json, Value as J};
 pub const TEXTS_FULL: &[&str] = &[
     "", " ", "\t", "\n", "\r\n", " \n ", "a", "a\n", "\n a", "{a", "}", "%}", "a b", "  a  ", "\r", "\r \t ", " \r\n \r ",
 ];
+/// whitespace beyond blank / tab / CR / LF: vertical tab, form feed, NEL, no-break space, em space, line
+/// separator, ideographic space, ogham space mark - and two look-alikes that are not whitespace (zero
+/// width space, byte order mark)
+pub const TEXTS_UNI: &[&str] = &[
+    "", " ", "\n", "a", "\u{b}", "\u{c}", "\u{85}", "\u{a0}", " \u{2003}", "\u{2028}", "\u{3000} \n", "\n\u{a0}", "a\u{a0}", "\u{a0}a", "\u{1680}\t", "\u{200b}", " \u{feff} ", "\n \u{b}", "\u{a0}\n",
+];
 pub const TEXTS_CORE: &[&str] = &["", " ", "\n", " \n ", "a", "\r\n"];
 
 #[derive(Clone, Copy, Debug, PartialEq, Eq)]
@@ -757,6 +763,36 @@ pub fn main(args: Args) -> i32 {
             }
         });
         acc.count("ws_raw_inner_sources", total);
+    }
+    // family F: whitespace outside ASCII around one tag of every kind and marker combination, and as
+    // the content of raw blocks
+    {
+        let texts = TEXTS_UNI;
+        let mut one: Vec<Tag> = tags.clone();
+        one.extend(compact_tags());
+        for il in MKS {
+            for ir in MKS {
+                for c in ["\u{a0}r\u{a0}", "\u{b}\n\u{2003}", "\n\u{a0}", "\u{85}r\n \u{c}"] {
+                    for (l, r) in [(Mk::None, Mk::None), (Mk::Minus, Mk::Minus)] {
+                        one.push(Tag { kind: Kind::Raw, body: Body::Padded, left: l, right: r, inner_l: il, inner_r: ir, content: c });
+                    }
+                }
+            }
+        }
+        let nx = texts.len() as u64;
+        let total = nx * nx * one.len() as u64;
+        par_chunks(total, 1024, &acc, |r, l| {
+            let envs: Vec<Environment<'static>> = cfgs.iter().map(|c| make_env(*c)).collect();
+            for n in r {
+                let ti = (n % one.len() as u64) as usize;
+                let x1 = ((n / one.len() as u64) % nx) as usize;
+                let x0 = (n / one.len() as u64 / nx) as usize;
+                for ci in 0..cfgs.len() {
+                    check_ws_case(&envs, &cfgs, &[texts[x0], texts[x1]], &[one[ti].clone()], ci, &acc, l);
+                }
+            }
+        });
+        acc.count("ws_unicode_sources", total);
     }
     // family D: tags written without blanks and body-less comments, alone between all texts and next
     // to every ordinary tag over the core texts
